@@ -144,4 +144,27 @@ long strtol(const char *nptr, char **endptr, int base)
 	return (long)acc;
 }
 #endif
+
+#ifndef CFGV_NO_REF_MEMMOVE
+/* reference memmove (C11 7.24.2.2).  CBMC's built-in model (array_copy / array_replace) silently leaves the
+ * destination unchanged when the offset into a pointer array is symbolic (seen on cfg_opt_rmnsec called from
+ * cfg_opt_rmtsec: a false alarm), so the two callers in confuse.c get a plain loop: word-wise for pointer arrays,
+ * byte-wise otherwise. */
+void *memmove(void *dest, const void *src, size_t n)
+{
+	size_t i;
+	_Bool fwd = !__CPROVER_same_object(dest, src) || __CPROVER_POINTER_OFFSET(dest) <= __CPROVER_POINTER_OFFSET(src);
+	if (n % sizeof(void *) == 0 && __CPROVER_POINTER_OFFSET(dest) % sizeof(void *) == 0 && __CPROVER_POINTER_OFFSET(src) % sizeof(void *) == 0) {
+		void **d = (void **)dest; void *const *s = (void *const *)src;
+		size_t w = n / sizeof(void *);
+		if (fwd) for (i = 0; i < w; i++) d[i] = s[i];
+		else for (i = w; i > 0; i--) d[i - 1] = s[i - 1];
+	} else {
+		unsigned char *d = (unsigned char *)dest; const unsigned char *s = (const unsigned char *)src;
+		if (fwd) for (i = 0; i < n; i++) d[i] = s[i];
+		else for (i = n; i > 0; i--) d[i - 1] = s[i - 1];
+	}
+	return dest;
+}
+#endif
 #endif
